@@ -651,10 +651,9 @@ struct Resolver
         if (isStandardUnit(name)) {
             return true;
         }
-        // finished work is remembered per spelling of the file (two spellings may hold different versions in the library);
-        // what is on the current dependency path is recognised whatever the spelling (an entity depending on itself)
-        std::string doneKey = (f.rawUrl.empty() ? f.path : f.rawUrl) + "|u|" + name + "|" + std::to_string(int(role));
+        // an entity is a (file, version served, name): a model handed to the library and the file on disk may differ
         std::string key = f.path + "#" + std::to_string(f.servedVersion) + "|u|" + name;
+        std::string doneKey = key + "|" + std::to_string(int(role));
         if (done.count(doneKey) != 0) {
             return true;
         }
@@ -729,8 +728,8 @@ struct Resolver
             role = FULL;
         }
         const CompSpec &c = f.comps[size_t(ci)];
-        std::string doneKey = (f.rawUrl.empty() ? f.path : f.rawUrl) + "|c|" + c.name + "|" + std::to_string(int(role));
         std::string key = f.path + "#" + std::to_string(f.servedVersion) + "|c|" + c.name;
+        std::string doneKey = key + "|" + std::to_string(int(role));
         if (done.count(doneKey) != 0) {
             return true;
         }
